@@ -550,9 +550,13 @@ Section Proofs.
   Qed.
 
   (* ---- the property oracle holds of the model ---- *)
-  Definition oreq_of (q : request) : oreq :=
-    {| oq_nts := q_nts q; oq_ireq := q_ireq q; oq_org := q_psrx q; oq_rx := q_rx q; oq_tx := q_tx q;
+  Definition oreq_of (prev : list time64) (q : request) : oreq :=
+    {| oq_nts := q_nts q; oq_ireq := q_ireq q; oq_rx := q_rx q; oq_tx := q_tx q; oq_prev := prev;
        oq_ref := q_ref q |}.
+
+  (* the oracle's history agrees with the client's: an interleaved request quotes, as origin, the receive
+     timestamp of a datagram the last successful measurement was based on *)
+  Definition prev_ok (prev : list time64) (q : request) : Prop := q_ireq q = true -> In (q_psrx q) prev.
 
   Definition payload_bytes (g : dgram) : Prop := Forall (fun x => 0 <= x < 256) (g_payload g).
 
@@ -613,29 +617,33 @@ Section Proofs.
     - destruct (IH Hin) as (b & A1 & A2). exists b. auto.
   Qed.
 
-  Theorem oracle_holds_of_model : forall q evs views,
+  (* the datagram an accepted exchange is based on has a view that meets the oracle's clauses *)
+  Lemma accepted_view : forall q evs views prev i r,
     Forall payload_bytes (dgrams_of evs) ->
     Forall2 (faithful q) (dgrams_of evs) views ->
-    C05_ok (oreq_of q) views (obs_of (recv_loop open q 0 0 evs)) = true.
+    prev_ok prev q ->
+    recv_loop open q 0 0 evs = LAccept i r ->
+    exists d, In d views /\ o_clauses (oreq_of prev q) d (r_t1 r) (r_t2 r) = true /\
+              o_t64 (o_payload d) 32 = r_srx r /\ r_off r = clock_offset (r_t0 r) (r_t1 r) (r_t2 r) (r_t3 r).
   Proof.
-    intros q evs views HB HF.
-    destruct (recv_loop open q 0 0 evs) as [i r|i e|i|i|] eqn:EL; simpl; try reflexivity.
+    intros q evs views prev i r HB HF HP EL.
     apply recv_loop_accept in EL. destruct EL as (_ & g & h & H1 & HG & HC & HR & _).
     apply nth_error_In in H1. apply In_dgrams_of in H1.
     destruct (Forall2_In_l _ _ _ _ _ _ HF H1) as (d & Hd & (F1 & F2 & F3)).
     rewrite Forall_forall in HB. specialize (HB g H1).
     destruct HG as (G1 & G2 & G3 & G4 & G5 & G6 & G7 & G8).
-    apply andb_true_iff. split.
-    2:{ subst r. unfold result_of. destruct (stamps q g h) as [[[t0 t1] t2] t3]. simpl. apply Z.eqb_refl. }
-    apply existsb_exists. exists d. split; [exact Hd|].
-    unfold o_clauses. rewrite F1.
+    exists d. split; [exact Hd|].
     pose proof G4 as G4'. unfold ntp_decode in G4'.
     destruct (length (g_payload g) <? 48)%nat eqn:EL48; try discriminate.
     apply Nat.ltb_ge in EL48.
     assert (Horg : o_t64 (g_payload g) 24 = h_org h) by (inversion G4'; reflexivity).
     assert (Hrx : o_t64 (g_payload g) 32 = h_rx h) by (inversion G4'; reflexivity).
     assert (Htx : o_t64 (g_payload g) 40 = h_tx h) by (inversion G4'; reflexivity).
-    rewrite Horg, Hrx, Htx. unfold oreq_of. cbn [oq_tx oq_rx oq_ireq oq_nts oq_ref oq_org].
+    split; [|split].
+    2:{ rewrite F1, Hrx. subst r. unfold result_of. destruct (stamps q g h) as [[[t0 t1] t2] t3]. reflexivity. }
+    2:{ subst r. unfold result_of. destruct (stamps q g h) as [[[t0 t1] t2] t3]. reflexivity. }
+    unfold o_clauses. rewrite F1.
+    rewrite Horg, Hrx, Htx. unfold oreq_of. cbn [oq_tx oq_rx oq_ireq oq_nts oq_ref oq_prev].
     apply metadata_ok_valid in G7.
     assert (Hnts : (if q_nts q then o_uid_ok d && o_auth_ok d else true) = true).
     { destruct (q_nts q) eqn:EN; [|reflexivity]. destruct (F3 (G5 eq_refl)) as [A B]. rewrite A, B. reflexivity. }
@@ -661,9 +669,159 @@ Section Proofs.
     - apply Z.eqb_eq. exact S1.
     - apply orb_true_iff. destruct S3 as [S3|[S3a S3b]].
       + left. apply Z.eqb_eq. exact S3.
-      + right. rewrite S3a. apply Z.eqb_eq. exact S3b.
+      + right. rewrite S3a. cbn [andb]. apply existsb_exists. exists (q_psrx q). split.
+        * apply HP. apply andb_true_iff in S3a. tauto.
+        * apply Z.eqb_eq. exact S3b.
     - apply Z.leb_le. exact S2.
   Qed.
+
+  Theorem oracle_holds_of_model : forall q evs views prev,
+    Forall payload_bytes (dgrams_of evs) ->
+    Forall2 (faithful q) (dgrams_of evs) views ->
+    prev_ok prev q ->
+    C05_ok (oreq_of prev q) views (obs_of (recv_loop open q 0 0 evs)) = true.
+  Proof.
+    intros q evs views prev HB HF HP.
+    destruct (recv_loop open q 0 0 evs) as [i r|i e|i|i|] eqn:EL; simpl; try reflexivity.
+    destruct (accepted_view q evs views prev i r HB HF HP EL) as (d & Hd & HC & _ & HO).
+    apply andb_true_iff. split.
+    - apply existsb_exists. exists d. auto.
+    - apply Z.eqb_eq. exact HO.
+  Qed.
+
+  (* after a success the oracle's history holds the receive timestamp the client keeps for interleaved mode *)
+  Lemma basis_contains : forall q evs views prev i r,
+    Forall payload_bytes (dgrams_of evs) ->
+    Forall2 (faithful q) (dgrams_of evs) views ->
+    prev_ok prev q ->
+    recv_loop open q 0 0 evs = LAccept i r ->
+    In (r_srx r) (C05_basis (oreq_of prev q) views (obs_of (LAccept i r))).
+  Proof.
+    intros q evs views prev i r HB HF HP EL.
+    destruct (accepted_view q evs views prev i r HB HF HP EL) as (d & Hd & HC & HS & _).
+    simpl. rewrite <- HS.
+    apply (in_map (fun d0 : oview => o_t64 (o_payload d0) 32)). apply filter_In. auto.
+  Qed.
+
+  (* ---- the oracle with its own history, along the exchanges of a call and along a history of calls ---- *)
+  Section OracleHistory.
+    (* the views handed to the oracle for the datagrams of an exchange, whichever request is outstanding *)
+    Variable views : request -> xenv -> list oview.
+    Definition views_faithful (e : xenv) : Prop :=
+      Forall payload_bytes (dgrams_of (e_evs e)) /\
+      forall q, Forall2 (faithful q) (dgrams_of (e_evs e)) (views q e).
+
+    (* the oracle (verdict, client state, oracle history) along the exchanges of call_loop *)
+    Fixpoint oracle_call (c : config) (st : cstate) (envs : list xenv) (prev : list time64) : bool * cstate * list time64 :=
+      match envs with
+      | [] => (true, st, prev)
+      | e :: rest =>
+          let q := make_request c st e in
+          let lr := recv_loop open q 0 0 (e_evs e) in
+          let ok := C05_ok (oreq_of prev q) (views q e) (obs_of lr) in
+          let prev' := C05_basis (oreq_of prev q) (views q e) (obs_of lr) in
+          match lr with
+          | LAccept _ r =>
+              let st' := update c st e r in
+              if in_interleaved_mode c st' then (ok, st', prev')
+              else let '(b, s2, p) := oracle_call c st' rest prev' in (ok && b, s2, p)
+          | LFail _ _ => let '(b, s2, p) := oracle_call c st rest prev' in (ok && b, s2, p)
+          | _ => (ok, st, prev')
+          end
+      end.
+
+    (* the client's interleaved-mode state is backed by the oracle's history *)
+    Definition hist_inv (c : config) (st : cstate) (prev : list time64) : Prop :=
+      c_imode c = true -> s_has st = true -> In (s_srx st) prev.
+
+    Lemma hist_inv_request : forall c st e prev, hist_inv c st prev -> prev_ok prev (make_request c st e).
+    Proof.
+      intros c st e prev HI HQ. unfold make_request in *. cbn [q_ireq q_psrx] in *.
+      unfold want_interleaved in HQ. apply andb_true_iff in HQ. destruct HQ as [HQ _].
+      apply andb_true_iff in HQ. destruct HQ as [H1 H2]. exact (HI H1 H2).
+    Qed.
+
+    Theorem oracle_call_holds : forall c envs st prev i nerr acc,
+      Forall views_faithful envs -> hist_inv c st prev ->
+      let '(b, s2, p) := oracle_call c st envs prev in
+      b = true /\ hist_inv c s2 p /\ s2 = fst (fst (call_loop open c st envs i nerr acc)).
+    Proof.
+      intros c envs. induction envs as [|e rest IH]; intros st prev i nerr acc HV HI.
+      - simpl. auto.
+      - inversion HV as [|e' r' [HB HF] HV']; subst.
+        pose proof (hist_inv_request c st e prev HI) as HP.
+        pose proof (oracle_holds_of_model (make_request c st e) (e_evs e) (views (make_request c st e) e) prev HB (HF _) HP) as HO.
+        cbn [oracle_call call_loop].
+        destruct (recv_loop open (make_request c st e) 0 0 (e_evs e)) as [k r|k er|k|k|] eqn:EL.
+        + pose proof (basis_contains _ _ _ prev k r HB (HF _) HP EL) as HC.
+          assert (HI' : hist_inv c (update c st e r) (C05_basis (oreq_of prev (make_request c st e)) (views (make_request c st e) e) (obs_of (LAccept k r)))).
+          { intros HM HS. unfold update in *. rewrite HM in *. cbn [s_srx]. exact HC. }
+          destruct (in_interleaved_mode c (update c st e r)).
+          * split; [exact HO|]. split; [exact HI'|reflexivity].
+          * specialize (IH (update c st e r) _ (S i) nerr (Some (COffset (r_off r) (r_crx r))) HV' HI').
+            destruct (oracle_call c (update c st e r) rest _) as [[b s2] p].
+            destruct (call_loop open c (update c st e r) rest (S i) nerr (Some (COffset (r_off r) (r_crx r)))) as [[s3 cr] l].
+            destruct IH as (A & B & C). cbn [fst] in *. rewrite HO, A. auto.
+        + assert (HI' : hist_inv c st (C05_basis (oreq_of prev (make_request c st e)) (views (make_request c st e) e) (obs_of (LFail k er)))).
+          { exact HI. }
+          specialize (IH st _ (S i) (S nerr) (if (nerr =? i)%nat then Some (CError er) else acc) HV' HI').
+          destruct (oracle_call c st rest _) as [[b s2] p].
+          destruct (call_loop open c st rest (S i) (S nerr) (if (nerr =? i)%nat then Some (CError er) else acc)) as [[s3 cr] l].
+          destruct IH as (A & B & C). cbn [fst] in *. rewrite HO, A. auto.
+        + split; [exact HO|]. split; [exact HI|reflexivity].
+        + split; [exact HO|]. split; [exact HI|reflexivity].
+        + split; [exact HO|]. split; [exact HI|reflexivity].
+    Qed.
+
+    (* ... and along a history of calls and mode resets of one client *)
+    Fixpoint oracle_history (c : config) (st : cstate) (ops : list hop) (prev : list time64) : bool :=
+      match ops with
+      | [] => true
+      | HCall envs :: rest =>
+          let st0 := if c_scion c && negb (in_interleaved_mode c st) then reset_state st else st in
+          let '(b, s2, p) := oracle_call c st0 (firstn (num_exchanges c) envs) prev in
+          b && oracle_history c s2 rest p
+      | HReset :: rest => oracle_history c (reset_state st) rest prev
+      end.
+
+    Definition ops_faithful (ops : list hop) : Prop :=
+      forall envs, In (HCall envs) ops -> Forall views_faithful envs.
+
+    Lemma hist_inv_reset : forall c st prev, hist_inv c (reset_state st) prev.
+    Proof. intros c st prev _ H. discriminate. Qed.
+
+    Lemma Forall_firstn : forall (A : Type) (P : A -> Prop) n l, Forall P l -> Forall P (firstn n l).
+    Proof.
+      intros A P n l H. rewrite Forall_forall in *. intros x Hx. apply H. exact (In_firstn _ _ _ _ Hx).
+    Qed.
+
+    Theorem oracle_history_holds : forall c ops st prev,
+      ops_faithful ops -> hist_inv c st prev -> oracle_history c st ops prev = true.
+    Proof.
+      intros c ops. induction ops as [|op rest IH]; intros st prev HF HI; [reflexivity|].
+      assert (HFr : ops_faithful rest) by (intros envs Hin; apply HF; right; exact Hin).
+      destruct op as [envs|]; cbn [oracle_history].
+      - set (st0 := if c_scion c && negb (in_interleaved_mode c st) then reset_state st else st).
+        assert (HI0 : hist_inv c st0 prev).
+        { unfold st0. destruct (c_scion c && negb (in_interleaved_mode c st)); [apply hist_inv_reset|exact HI]. }
+        assert (HV : Forall views_faithful (firstn (num_exchanges c) envs)).
+        { apply Forall_firstn. apply HF. left. reflexivity. }
+        pose proof (oracle_call_holds c (firstn (num_exchanges c) envs) st0 prev 0%nat 0%nat None HV HI0) as H.
+        destruct (oracle_call c st0 (firstn (num_exchanges c) envs) prev) as [[b s2] p].
+        destruct H as (A & B & _). rewrite A. cbn [andb]. apply IH; assumption.
+      - apply IH; [exact HFr|apply hist_inv_reset].
+    Qed.
+
+    (* the state the oracle run carries is the model's: after a call it is the state [call] returns *)
+    Theorem oracle_call_state : forall c st envs prev,
+      Forall views_faithful (firstn (num_exchanges c) envs) -> hist_inv c st prev ->
+      snd (fst (oracle_call c st (firstn (num_exchanges c) envs) prev)) = fst (fst (call open c st envs)).
+    Proof.
+      intros c st envs prev HV HI. unfold call.
+      pose proof (oracle_call_holds c (firstn (num_exchanges c) envs) st prev 0%nat 0%nat None HV HI) as H.
+      destruct (oracle_call c st (firstn (num_exchanges c) envs) prev) as [[b s2] p]. destruct H as (_ & _ & H). exact H.
+    Qed.
+  End OracleHistory.
 
   (* ---- the SCION packet authenticator (SPAO, DRKey host-host key) ---- *)
 
